@@ -900,6 +900,31 @@ def bi_super(eng, st, pos, kw):
     return [("ok", st, VFunc("super", b, obj))]
 
 
+def bi_chain(eng, st, pos, kw):
+    """itertools.chain(*gen) for a generator of fixed-arity tuples: the flattened sequence of length n*k whose element
+    i is component (i mod k) of tuple (i div k)"""
+    from . import comprehension as C
+    if len(pos) == 1 and isinstance(pos[0], VConc) and isinstance(pos[0].py, tuple) and pos[0].py[0] == "starred":
+        g = pos[0].py[1]
+        if isinstance(g, C.VGen) and g.cond is None and isinstance(g.elt, VTuple) and len(g.elt.items) >= 1:
+            k = len(g.elt.items)
+            n = g.seq.n
+
+            def get(s, i, g=g, k=k):
+                q = i / k          # z3 integer division (i >= 0)
+                tup = g.elt_at(q)
+                comps = tup.items
+                r0 = comps[0]
+                if not all(isinstance(c, VRef) for c in comps):
+                    raise Unsupported("chain of non-reference tuples")
+                t = comps[-1].t
+                for j in range(k - 2, -1, -1):
+                    t = z3.If(i % k == j, comps[j].t, t)
+                return VRef(t, r0.cls)
+            return [("ok", st, VSeq(n * k, get, tag="chain", flat=(n, k, lambda s, j, c, g=g: g.elt_at(j).items[c])))]
+    raise Unsupported("itertools.chain in this form")
+
+
 def bi_int(eng, st, pos, kw):
     v = pos[0]
     if isinstance(v, (VInt, VBool)):
@@ -910,7 +935,7 @@ def bi_int(eng, st, pos, kw):
 TYPE_NAMES = {"list", "dict", "set", "tuple", "slice", "str", "int", "bool", "float", "frozenset", "type", "object"}
 
 BUILTINS = {
-    "int": bi_int,
+    "int": bi_int, "chain": bi_chain,
     "len": bi_len, "isinstance": bi_isinstance, "hasattr": bi_hasattr, "getattr": bi_getattr, "setattr": bi_setattr,
     "enumerate": bi_enumerate, "islice": bi_islice, "range": bi_range, "str": bi_str, "repr": bi_opaque,
     "format": bi_opaque, "id": bi_opaque, "isinf": bi_isinf, "isnan": bi_isnan, "abs": bi_abs, "min": _minmax(True), "max": _minmax(False),
